@@ -1,4 +1,5 @@
 //! Verification harness for davisriedel/zvt: property-based testing and fuzzing (see /verif/DESIGN.md).
+pub mod alloc;
 pub mod engine;
 pub mod gen;
 pub mod refc;
@@ -6,6 +7,7 @@ pub mod registry;
 pub mod tree;
 pub mod props {
     pub mod c01;
+    pub mod c02;
     pub mod c13;
     pub mod c14;
     pub mod c15;
@@ -46,6 +48,7 @@ fn run_c03(t: Tier) -> i32 {
 pub fn dispatch() -> Vec<(&'static str, RunFn, ReplayFn)> {
     vec![
         ("C01", run_c01 as RunFn, props::c01::replay_c01 as ReplayFn),
+        ("C02", props::c02::run, props::c02::replay),
         ("C03", run_c03, props::c01::replay_c03),
         ("C13", props::c13::run, props::c13::replay),
         ("C14", props::c14::run, props::c14::replay),
